@@ -151,11 +151,17 @@ def R3_dijkstra(ctx):
     ctx.check(conf in alts or ("field", ("variant", ("arg", 1), "AStarAlgorithm"), "weight_factor") in alts, "weight:configured", "without a query override the configured weight factor is not used: %s" % short(w)[:200], ra[0].where(), detail="self.weight_factor")
     ctx.check(len(q) == 1, "weight:query-override", "query[\"weight_factor\"] does not reach run_a_star: %s" % short(w)[:200], ra[0].where(), detail="query.get(\"weight_factor\")")
     if len(q) == 1:
-        cl = [s for s in subterms(q[0]) if s[0] == "closure"]
-        okc = len(cl) == 1
-        if okc:
-            crt = nosite(deep_strip(Terms(F.need(cl[0][1])).return_term()))
-            okc = crt == ("agg", "std::option::Option", "Some", (("0", ("call", COST + "::new", (("arg", 2),))),))
+        # Some(Cost::new(value.as_f64()?)) — written with `.map(|f| Some(Cost::new(f)))` or directly
+        v_ = norm_adaptors(F, q[0])
+        while result_variant(v_) == "Ok":
+            v_ = agg_payload(v_)
+        as_f = lambda t: t[0] == "call" and t[1].endswith("Value::as_f64") and calls_in(t, "serde_json::value::Value::get")
+        okc = v_[0] == "agg" and v_[1] == "std::option::Option" and v_[2] == "Some" and v_[3][0][1][0] == "call" and v_[3][0][1][1] == COST + "::new" and as_f(v_[3][0][1][2][0])
+        if not okc:
+            cl = [s for s in subterms(q[0]) if s[0] == "closure"]
+            if len(cl) == 1:
+                crt = nosite(deep_strip(Terms(F.need(cl[0][1])).return_term()))
+                okc = crt == ("agg", "std::option::Option", "Some", (("0", ("call", COST + "::new", (("arg", 2),))),))
         ctx.check(okc, "weight:query-value", "the query's weight_factor is not passed as Some(Cost::new(value))", ra[0].where())
     ctx.check([deep_strip(tm.operand(x, ra[0].bb)) for x in ra[0].args[:3]] == [("arg", 2), ("arg", 3), ("arg", 5)] and deep_strip(tm.operand(ra[0].args[4], ra[0].bb)) == ("arg", 6), "search-args", "run_a_star is not called with (source, destination, direction, weight, search instance) of this query", ra[0].where())
 
